@@ -299,7 +299,10 @@ class ForestGen:
         names sits at the very offset (in its file) at which the linking DIE sits in the main file."""
         units, pool = [], []
         for k in range(self.r.randint(1, 2)):
-            u, dies = self.small_unit(self.r.choice([v for v in self.cfg.versions if v >= 3] or [4]), self.r.choice(["partial_unit", "compile_unit"]),
+            version = self.r.choice([v for v in self.cfg.versions if v >= 3] or [4])
+            if k == 0 and f.units[0].version >= 3 and self.chance(0.7):
+                version = f.units[0].version      # the first units of both files then have their roots at the same offset
+            u, dies = self.small_unit(version, self.r.choice(["partial_unit", "partial_unit", "compile_unit"]),
                                       b"common%d" % k, self.r.randint(2, 12))
             units.append(u)
             pool.append(dies)
@@ -310,6 +313,29 @@ class ForestGen:
         if not hosts:
             return
         f.alt = alt
+        # what dwz -m does: units of the main file import (partial) units of the supplementary file -- directly, and
+        # from partial units that are themselves imported, so that the chain of imports crosses the file boundary
+        imported_main = set(id(DieT) for DieT in (import_target(d) for d in f.all_dies()) if DieT is not None)
+        for u in units:
+            if not (u.partial or self.cfg.import_compile_units) or not self.chance(0.7):
+                continue
+            nested = [m for m in f.units if id(m.root) in imported_main]
+            hostu = self.r.choice(nested) if nested and self.chance(0.6) else self.r.choice([m for m in f.units if m.root.tag in (TAG["compile_unit"], TAG["partial_unit"])])
+            if u is units[0] and f.units[0] in nested and self.chance(0.7):
+                hostu = f.units[0]
+            imp = Die(TAG["imported_unit"], [Attr(AT["import_"], FORM["GNU_ref_alt"], u.root)])
+            inner = [d for d in hostu.dies()[1:] if d.has_children and d.tag != TAG["imported_unit"]] if self.chance(0.25) else []
+            host = self.r.choice([hostu.root] + inner)
+            at = self.r.randint(0, len(host.children))
+            host.children.insert(at, imp)
+            host.has_children = True
+            if at > 0 and host.children[at - 1].attr(AT["sibling"]):
+                host.children[at - 1].attr(AT["sibling"]).value = imp        # (DW_AT_sibling names the next sibling, which is the import now)
+            self.label("alt-import")
+            if id(hostu.root) in imported_main:
+                self.label("alt-import-nested")
+                if hostu.header_size() == u.header_size() and hostu is f.units[0] and u is units[0]:
+                    self.label("alt-import-nested-same-root-offset")
         links = []
         for d, ln in hosts:
             form = "ref_sup4" if (d.unit is not None and d.unit.version >= 5 and self.chance(0.5)) else "GNU_ref_alt"
